@@ -151,7 +151,53 @@ def check_inplace(ctx, case):
             ctx.nontriv(("inplace", case["text"], repr(case["steps"][: stepno + 1])))
 
 
+HUGE_TEXTS = [
+    "10^400", "x + 2^1024", "y * 12^(7^3)", "(9^200)x * 9^200", "2^2000 * 3", "7^500 + 1", "3 * 10^400", "10^400 - 1", "-(2^1100 + 1)", "2^1024 * 2^1024",
+    "10^400 + 10^400", "x^2 * 12^343", "5 + (10^310 + x)", "2^1023 * 2", "2^1024 / 2", "10^308 * 10", "(10^200)^2", "4 * (x * 10^400)", "10^400 = x", "x - 10^400",
+    "1" + "0" * 400 + " + 1", "1" + "0" * 320 + "x * 2", "2 * " + "9" * 330,
+]
+NO_FACTORING = ("AG", "CS1", "CS0", "CA", "DM", "MI", "RS", "VM")
+
+
+def check_huge(ctx, case):
+    """Integers beyond the double range are ordinary values of this library (integer powers are exact): on trees containing
+    or producing them, a rule that says it applies must still apply without raising. Only the rules that never call the
+    trial-division factor() are used (that one is slow, not wrong, on such numbers), two steps deep."""
+    from mathy_core.expressions import MathExpression
+
+    root = E.parse(case["text"])
+    if root is None:
+        return
+    rules = dict(E.rule_instances())
+    frontier = [root]
+    for depth in range(2):
+        nxt = []
+        for tree in frontier:
+            for name in NO_FACTORING:
+                rule = rules[name]
+                for n in A.inorder(tree):
+                    try:
+                        ok = rule.can_apply_to(n)
+                    except Exception as e:
+                        return ctx.fail(("can_apply_to-raised", name) + E.exc_site(e), case, {"node_kind": A.kind(n), "error": repr(e)[:200], "depth": depth})
+                    if not ok:
+                        continue
+                    ap = E.apply(rule, n)
+                    ctx.count("applications")
+                    ctx.count("huge:applications")
+                    if ap.error is not None:
+                        return ctx.fail(("apply-raised", name, ap.arrangement) + E.exc_site(ap.error), case, {"node_kind": A.kind(n), "error": repr(ap.error)[:200], "depth": depth})
+                    if not isinstance(ap.result, MathExpression):
+                        return ctx.fail(("apply-result-type", name, ap.arrangement), case, {"result": repr(ap.result)[:100]})
+                    if ap.result_root is not None and A.audit(ap.result_root) is None and len(nxt) < 12:
+                        nxt.append(ap.result_root)
+        frontier = nxt
+    ctx.nontriv(("huge", case["text"]))
+
+
 def replay(ctx, case):
+    if case.get("huge"):
+        return check_huge(ctx, case)
     if "steps" in case:
         return check_inplace(ctx, case)
     check_tree(ctx, case)
@@ -187,6 +233,10 @@ def run(ctx):
         check_tree(ctx, {"text": t, "pre": []})
     ctx.info["small_expressions_exhaustive"] = f"{len(small)} expressions with <= {2 if ctx.tier == 'quick' else 3} binary operators over leaves x y 2 -1 0 0.5"
     hyp_run(ctx, "g-tree", G.tree_case(12 if ctx.tier == "quick" else 24), check_tree, ctx.n(4000, 20000))
+    for i, t in enumerate(HUGE_TEXTS):
+        if i % ctx.nshards == ctx.shard:
+            ctx.count("evaluations")
+            check_huge(ctx, {"text": t, "huge": True})
     # in-place sequences with long-lived rule objects (deterministic starts from the template sweep, then drawn ones)
     istep = 8 if ctx.tier == "quick" else 1
     for i, t in enumerate(texts):
